@@ -158,6 +158,12 @@ func c02BaseDoc(f string) ([]byte, string, error) {
 			`<table:table table:name="T1"><table:table-column table:number-columns-repeated="3"/>` +
 			`<table:table-row><table:table-cell table:number-columns-spanned="2" table:number-rows-spanned="2"><text:p>a 3</text:p></table:table-cell><table:covered-table-cell/><table:table-cell><text:p>b</text:p></table:table-cell></table:table-row>` +
 			`<table:table-row table:number-rows-repeated="1"><table:covered-table-cell table:number-columns-repeated="2"/><table:table-cell><text:p>d 4</text:p></table:table-cell></table:table-row></table:table>` +
+			// a second grid with every span written out, and a cell spanning rows AND columns at the right edge under plain cells:
+			// a span damaged in one cell moves the cells of the rows below it
+			`<table:table table:name="T2"><table:table-column table:number-columns-repeated="3"/>` +
+			`<table:table-row><table:table-cell table:number-columns-spanned="1" table:number-rows-spanned="1"><text:p>A1</text:p></table:table-cell><table:table-cell table:number-columns-spanned="1" table:number-rows-spanned="1"><text:p>B1</text:p></table:table-cell><table:table-cell table:number-columns-spanned="1" table:number-rows-spanned="1"><text:p>C1</text:p></table:table-cell></table:table-row>` +
+			`<table:table-row><table:table-cell table:number-columns-spanned="1" table:number-rows-spanned="1"><text:p>A2</text:p></table:table-cell><table:table-cell table:number-columns-spanned="2" table:number-rows-spanned="2"><text:p>B2</text:p></table:table-cell><table:covered-table-cell/></table:table-row>` +
+			`<table:table-row><table:table-cell table:number-columns-spanned="1" table:number-rows-spanned="1"><text:p>A3</text:p></table:table-cell><table:covered-table-cell table:number-columns-repeated="2"/></table:table-row></table:table>` +
 			`</office:text></office:body></office:document-content>`
 		b, err := zipOf(ms)
 		return b, ".odt", err
